@@ -83,17 +83,21 @@ func simRateLimiter(cs *compState) {
 				releases[host] = append(releases[host], rlRelease{t: t, seq: seq})
 				mm.Unlock()
 				k.Park(actor, "comp.wait.end", host)
+				reported := -2
 				switch cs.Draw(6) {
 				case 0:
 					bm.OnSuccess(host)
 					report(host, 0)
+					reported = 0
 				case 1, 2:
 					st := []int{429, 403, 408, 425, 500, 503}[cs.Draw(6)]
+					k.Note(actor, "comp.report.begin", host, st)
 					bm.AdjustOnFailure(host, st)
 					report(host, st) // recorded once the call has returned: from here on the penalty must hold
 					k.Fault(fmt.Sprintf("limiter-failure-%d", st))
+					reported = st
 				}
-				k.Park(actor, "comp.report.end", host)
+				k.Park(actor, "comp.report.end", host, reported)
 				if g := gaps[cs.Draw(len(gaps))]; g > 0 {
 					time.Sleep(g)
 				}
@@ -119,7 +123,9 @@ func simRateLimiter(cs *compState) {
 	hist := newRLHistory()
 	k.Oracles = append(k.Oracles, &rlRangeOracle{capacity: capacity, rate: rate}, hist)
 	reason := cs.runUntilQuiet(nil)
-	if reason != "done" {
+	if reason == "max-steps" && !k.Spun() {
+		k.Probe("comp-step-budget-exhausted") // ran out of steps while simulated time was passing: inconclusive
+	} else if reason != "done" {
 		k.Violate("C13", "progress", "waiter-never-released", fmt.Sprintf("simulation ended with %s; still inside calls: %v", reason, cs.Blocked()))
 	}
 	// history oracles (from the limiter's own state changes)
@@ -174,10 +180,15 @@ type rlHistory struct {
 	releases  map[string][]rlRelease
 	failures  map[string][]rlFailure
 	streak    map[string]int
+	// caller-side view: a throttling status whose report call has returned, per host, as long as the host's bucket
+	// has not been dropped (LFU eviction / clean-up) since; and the Wait calls entered after it
+	failRet   map[string]*Event
+	waitAfter map[string]*Event // actor -> the failure return its Wait call was entered after
+	reporting map[string]string // actor -> host of the report call in progress ("" once the host's bucket was dropped meanwhile)
 }
 
 func newRLHistory() *rlHistory {
-	return &rlHistory{hostOf: map[string]string{}, pendingSt: map[string]int{}, releases: map[string][]rlRelease{}, failures: map[string][]rlFailure{}, streak: map[string]int{}}
+	return &rlHistory{hostOf: map[string]string{}, pendingSt: map[string]int{}, releases: map[string][]rlRelease{}, failures: map[string][]rlFailure{}, streak: map[string]int{}, failRet: map[string]*Event{}, waitAfter: map[string]*Event{}, reporting: map[string]string{}}
 }
 func (h *rlHistory) Name() string { return "rl-history" }
 func (h *rlHistory) OnEvent(k *Kernel, ev *Event) {
@@ -194,7 +205,51 @@ func (h *rlHistory) OnEvent(k *Kernel, ev *Event) {
 				h.pendingSt[ev.Actor] = -1
 			}
 		}
+	case "comp.report.begin":
+		if len(ev.raw) > 0 {
+			h.reporting[ev.Actor], _ = ev.raw[0].(string)
+		}
+	case "comp.report.end":
+		if len(ev.raw) > 1 {
+			host, _ := ev.raw[0].(string)
+			st, _ := ev.raw[1].(int)
+			if (st == 429 || st == 403 || st == 408 || st == 425) && h.reporting[ev.Actor] == host {
+				h.failRet[host] = ev
+			}
+		}
+		delete(h.reporting, ev.Actor)
+	case "rl.bucket.evict", "rl.bucket.cleanup":
+		if len(ev.raw) > 0 {
+			host, _ := ev.raw[0].(string)
+			delete(h.failRet, host) // the penalty lived in the dropped bucket (scope limit of the limiter table, not judged)
+			for a, hh := range h.reporting {
+				if hh == host {
+					h.reporting[a] = "" // dropped while the report was being applied: the penalty may have gone to the dropped bucket
+				}
+			}
+			for a, hh := range h.hostOf {
+				if hh == host {
+					delete(h.waitAfter, a)
+				}
+			}
+		}
+	case "rl.wait.enter":
+		delete(h.waitAfter, ev.Actor)
+		if len(ev.raw) > 0 {
+			host, _ := ev.raw[0].(string)
+			h.hostOf[ev.Actor] = host
+			if f := h.failRet[host]; f != nil && ev.Step > f.Step {
+				h.waitAfter[ev.Actor] = f
+			}
+		}
 	case "rl.take":
+		if f := h.waitAfter[ev.Actor]; f != nil {
+			k.Probe("c13-waits-entered-after-a-reported-throttle")
+			if ev.T < f.T+int64(5*time.Second) {
+				k.Violate("C13", "penalty", "release-during-penalty", fmt.Sprintf("host %s: a throttling status was reported (call returned at t=%v, step %d), the host's bucket was not dropped since, yet a Wait entered afterwards was released at t=%v, before the minimum penalty of 5s had elapsed", h.hostOf[ev.Actor], time.Duration(f.T), f.Step, time.Duration(ev.T)))
+			}
+			delete(h.waitAfter, ev.Actor)
+		}
 		h.seq++
 		host := h.hostOf[ev.Actor]
 		h.releases[host] = append(h.releases[host], rlRelease{t: time.Duration(ev.T), seq: h.seq})
